@@ -778,14 +778,33 @@ class SamplingMethod(DirectMethod):
     def get_signals_at(self, stage, k=-1):
         return veccat(*[e.sampled[k] for e in self.signals.values()])
 
-    def get_p_sys(self, stage, k, include_signals=True):
-        args = [vvcat(self.P),
-                self.get_p_control_at(stage, k),
-                self.get_p_control_plus_at(stage, k),
-                self.V, self.get_v_control_at(stage, k),
-                self.get_v_control_plus_at(stage, k)]
-        if include_signals:
-            args.append(self.get_signals_at(stage, k))
+    def get_p_sys(self, stage, k, include_signals=True, signal_values=None):
+        """Values for the parameter input of the system functions, laid out like vertcat(stage.p, stage.v):
+        bspline parameters follow the other parameters, bspline variables follow the other variables.
+
+        signal_values: values of the signals (ordered like self.signals, possibly several columns)
+                       to use instead of their samples at control node k
+        """
+        p_sig = []
+        v_sig = []
+        cols = 1
+        if include_signals or signal_values is not None:
+            if signal_values is None:
+                signal_values = [e.sampled[k] for e in self.signals.values()]
+            lookup = HashDict()
+            for s, val in zip(self.signals.keys(), signal_values):
+                lookup[s] = val
+            # Derivative signals are no inputs of the system functions
+            p_sig = [lookup[s] for s in stage.parameters['bspline']]
+            v_sig = [lookup[s] for s in stage.variables['bspline']]
+            if len(signal_values)>0:
+                cols = signal_values[0].shape[1]
+        rep = (lambda e: ca.repmat(e, 1, cols)) if cols>1 else (lambda e: e)
+        args = [rep(vvcat(self.P)),
+                rep(self.get_p_control_at(stage, k)),
+                rep(self.get_p_control_plus_at(stage, k))] + p_sig + \
+               [rep(self.V), rep(self.get_v_control_at(stage, k)),
+                rep(self.get_v_control_plus_at(stage, k))] + v_sig
         return vcat(args)
 
     def eval(self, stage, expr):
